@@ -179,6 +179,14 @@ Theorem C19_release_cannot_abort_before_removal : remove_state_cannot_abort_earl
 Proof. exact fact_remove_state_cannot_abort_early. Qed.
 Print Assumptions C19_release_cannot_abort_before_removal.
 
+(* the goroutine that writes a session's IDLE responses keeps receiving from the channel until endIdle closes it — also
+   after a write to the client has failed.  State.ApplyUpdate pushes the responses into that (unbuffered) channel from
+   inside a database write transaction: a writer that gave up early would leave it blocked there for ever, holding the
+   database lock (every other command of the user then hangs).  By computation on Gen/FactsServe.v. *)
+Theorem C19_idle_writer_drains_until_closed : idle_writer_drains_until_closed = true.
+Proof. exact fact_idle_writer_drains. Qed.
+Print Assumptions C19_idle_writer_drains_until_closed.
+
 (* non-vacuity: three sessions; one logs out, the closer runs while the others are active, everything ends *)
 Example C19_example_run :
   exists s, run (init 3)
